@@ -72,6 +72,14 @@ REC = [
      lambda K: K % 2 == 0, lambda K: K + 1, lambda K: K + 1, lambda K: 0),
     ("map_calls", "fn f(x: int)->int{{ x * 2 }}\nlet x = range({K}).map(f).to_array().len();", lambda K: K, lambda K: K, lambda K: 1 if K else 0, lambda K: 0),
     ("lambda_in_reduce", "let x = range({K}).reduce(0, (a: int, b: int)->{{ a + b }});", lambda K: K * (K - 1) // 2, None, None, None),
+    # a call whose argument is an error value is still a call (its body does not run): every statement is independent, so the count is exact
+    ("calls_with_error_args", "fn f(a: int)->int{{ a + 1 }}\nfn g(a: int, b: int)->int{{ a + b }}\nlet e1 = f(error('e'));\nlet v1 = f(1);\nlet e2 = g(1, error('e'));\nlet v2 = g(1, 2);\nlet e3 = f([1][{K} + 5]);\nlet x = range({K}).map(f).to_array().len() + if_error(e1, 0) + if_error(e2, 0) + if_error(e3, 0) + v1 + v2;",
+     lambda K: K + 5, lambda K: K + 5, lambda K: 1, lambda K: 0),
+    # calls in tail position of *another* function are ordinary nested frames (only self calls are trampolined)
+    ("tail_chain_other_fns", "fn c(n: int)->int{{ n + 1 }}\nfn b(n: int)->int{{ c(n + 1) }}\nfn a(n: int)->int{{ b(n + 1) }}\nfn top(n: int)->int{{ if(n <= 0, a(0), top(n - 1)) }}\nlet x = top({K});",
+     lambda K: 3, lambda K: 4, lambda K: 4, lambda K: K),
+    ("tail_chain_via_if", "fn c(n: int)->int{{ n }}\nfn b(n: int)->int{{ if(n > 100, 0, c(n)) }}\nfn a(n: int)->int{{ (n >= 0).if(b(n), 0) }}\nlet x = range({K}).map(a).to_array().len();",
+     lambda K: K, lambda K: 3 * K, lambda K: 3 if K else 0, lambda K: 0),
     ("closure_depth", "fn mk(k: int)->(int)->(int){{ (x: int)->{{ x + k }} }}\nfn r(n: int)->int{{ if(n <= 0, 0, mk(n)(r(n - 1))) }}\nlet x = r({K});",
      lambda K: K * (K + 1) // 2, lambda K: 3 * K + 1, lambda K: K + 1, lambda K: 0),
 ]
